@@ -152,7 +152,9 @@ def gen_cases(ctx, markers):
         cases.append(('missing included file', 'DefInclude', {'phase': p}, build_case(markers, (p, rng.below(3), 'including missing-file.xly'))))
     if not ctx.quick:
         # two simultaneous defects of different classes in different places
-        flat = [(cls, v[0]) for cls, (vs, st) in DEFECTS.items() if cls != 'symbol defined later' for v in vs if v[1] is None]
+        # (an unterminated quote is excluded here: two of them close each other and form one legal multi-line string)
+        flat = [(cls, v[0]) for cls, (vs, st) in DEFECTS.items() if cls != 'symbol defined later' for v in vs
+                if v[1] is None and v[0].count('"') % 2 == 0 and v[0].count("'") % 2 == 0]
         for _ in range(400):
             (c1, t1), (c2, t2) = rng.choice(flat), rng.choice(flat)
             p1, p2 = rng.choice(PHASES), rng.choice(PHASES)
